@@ -421,9 +421,10 @@ class TranslatorC(Translator):
                 arg1 = self.from_expr(expr.args[1])
 
                 if expr.size <= self.NATIVE_INT_MAX_SIZE:
+                    # The helpers exist for the C integer sizes only
                     out = '%s%d(%s, %s)' % (
                         expr.op,
-                        expr.args[0].size,
+                        get_c_common_next_pow2(expr.size),
                         arg0,
                         arg1
                     )
@@ -443,9 +444,14 @@ class TranslatorC(Translator):
                 arg1 = self.from_expr(expr.args[1])
 
                 if expr.size <= self.NATIVE_INT_MAX_SIZE:
+                    # The helpers exist for the C integer sizes only
+                    size = get_c_common_next_pow2(expr.size)
+                    if size != expr.size:
+                        arg0 = self.from_expr(expr.args[0].signExtend(size))
+                        arg1 = self.from_expr(expr.args[1].signExtend(size))
                     out = '%s%d(%s, %s)' % (
                         expr.op,
-                        expr.args[0].size,
+                        size,
                         arg0,
                         arg1
                     )
